@@ -29,6 +29,11 @@ def families():
                                                            DS.nest(DS.cross(["g"], ["g"]), DS.cross(["c", "d"], ["c"]))]))
         out.append((f"{tag}:merge-with-list-then-cross", facs, [DS.merge([DS.cross(["e", "d"], ["e"], [ct]), DS.cross(["g"], ["g"])], [["MinimumTrials", 4]]),
                                                                  DS.repeat(DS.cross(["c", "d"], ["c"]), [["MinimumTrials", 4]])]))
+    # a MinimumTrials object given to a block that becomes the OUTER block of a Nest (its count is scaled there) and to another block
+    mt = ["MinimumTrials", 4]
+    out.append(("MinimumTrials:nest-outer-then-cross", facs, [DS.nest(DS.cross(["c"], ["c"], [mt]), DS.cross(["g"], ["g"])), DS.cross(["d"], ["d"], [mt])]))
+    out.append(("MinimumTrials:nest-outer-then-repeat", facs, [DS.nest(DS.cross(["c"], ["c"], [mt]), DS.cross(["g"], ["g"])), DS.repeat(DS.cross(["d"], ["d"]), [mt])]))
+    out.append(("MinimumTrials:nest-then-nest", facs, [DS.nest(DS.cross(["c"], ["c"], [mt]), DS.cross(["g"], ["g"])), DS.nest(DS.cross(["d"], ["d"], [mt]), DS.cross(["g"], ["g"]))]))
     # factors only (no shared constraint): weighted / derived factors reused
     tr = DS.transition_rep("t", "c", DS.A2)
     wd = DS.fac("d", [["x", 2], ["y", 1]])
